@@ -131,6 +131,20 @@ def run(prog, rep, tier, cfg):
     X.callers('K5', ST + 'put_pending_deals', callee_is(ST + 'put_pending_deals'), ['Actor::publish_storage_deals'], crates=[CR])
     X.callers('K5', ST + 'remove_pending_deal', callee_is(ST + 'remove_pending_deal'),
               [ST + 'get_active_deal_or_process_timeout', ST + 'process_deal_update', 'Actor::on_miner_sectors_terminate', 'Actor::cron_tick'], crates=[CR])
+    # the pending set is keyed by proposal cid, and an identical proposal may be published again once the first copy has been
+    # processed (its cid was taken out of the pending set then). So a deal that *has* been processed must never un-pend its cid
+    # again - that entry may now belong to the newer copy: outside the activation-timeout path the removal is reachable only when
+    # the deal was never processed (last_updated_epoch == EPOCH_UNDEFINED)
+    NEVER = m_rel('eq', ['F:DealState.last_updated_epoch'], ['K:EPOCH_UNDEFINED'], True)
+    n_rp = 0
+    for hn in ('Actor::on_miner_sectors_terminate', 'Actor::cron_tick', ST + 'process_deal_update'):
+        H = X.fn(hn, CR)
+        for g in prog.family(H):
+            for c in g.calls:
+                if callee_is(ST + 'remove_pending_deal')(c):
+                    n_rp += 1
+                    X.guard('K6b', 'pending-removed-only-if-never-processed:%s' % hn.split('::')[-1], g, [c.bb], NEVER, 'last_updated_epoch == EPOCH_UNDEFINED', success_only=False)
+    rep.floor('K6b', 'guarded_pending_removals', n_rp, 3)
     # ---- activation
     X.callers('K5', 'preactivate_deal', callee_is('preactivate_deal'), ['Actor::batch_activate_deals', 'Actor::sector_content_changed'], crates=[CR])
     PA = X.fn('preactivate_deal', CR)
